@@ -23,7 +23,7 @@ OUT_REL = "src/generated"
 PROJ_REL = "src-tauri"
 CLASSES = ["cmd_added", "cmd_renamed", "param_type", "param_added", "param_renamed", "param_optional",
            "ret_type", "cmd_rename_all",
-           "field_added", "field_type", "field_rename", "rename_all", "skip_added",
+           "field_added", "field_type", "field_rename", "rename_identity", "rename_all", "skip_added",
            "variant_added", "variant_rename", "validator", "validator_changed",
            "event_payload", "event_renamed", "event_added",
            "channel_type", "channel_added",
@@ -66,6 +66,9 @@ def render(st):
     variant = "    Suspended,\n" if a["variant_added"] else ""
     inactive_attr = '    #[serde(rename = "disabled")]\n' if a["variant_rename"] else ""
     zip_ty = "Option<u32>" if a["field_type"] else "Option<String>"
+    # a rename that spells the identifier itself: it changes the output only because it switches the container's
+    # rename_all off for this field (totalItems -> total_items)
+    identity_attr = '    #[serde(rename = "total_items")]\n' if a["rename_identity"] else ""
     models = """use serde::{Deserialize, Serialize};
 use std::path::PathBuf;
 
@@ -93,16 +96,17 @@ pub struct Address {
 }
 
 #[derive(Serialize, Deserialize)]
+#[serde(rename_all = "camelCase")]
 pub struct Progress {
     pub done: u32,
-    pub total_items: u32,
+%s    pub total_items: u32,
 }
 
 #[derive(Serialize, Deserialize)]
 pub struct Unused {
     pub x: i32,
 }
-""" % (user_attr, valid_attr, email_attr, secret_attr, extra_field, inactive_attr, variant, zip_ty)
+""" % (user_attr, valid_attr, email_attr, secret_attr, extra_field, inactive_attr, variant, zip_ty, identity_attr)
     id_ty = "String" if a["param_type"] else "i32"
     ret_ty = "Vec<User>" if a["ret_type"] else "User"
     get_name = "fetch_user" if a["cmd_renamed"] else "get_user"
